@@ -3,6 +3,7 @@
 # applies the change to /repo's working tree, runs the checks, restores /repo. Never commits.
 set -u
 P="$1"; shift
+case "$P" in revert:*) ;; /*) ;; *) P="$(pwd)/$P" ;; esac
 cd /repo || exit 2
 if [ -n "$(git status --porcelain --untracked-files=no)" ]; then echo "/repo not clean"; exit 2; fi
 case "$P" in
@@ -13,7 +14,7 @@ cd /verif
 mkdir -p .tmp/evsave; for c in "$@"; do cp -f evidence/$c.json .tmp/evsave/ 2>/dev/null; done
 for c in "$@"; do
   echo "=== $c on mutant $P"
-  ./check "$c" 2>&1 | tail -4
+  ./check "$c" 2>&1 | grep -E "^OK|^VIOLATION|^KNOWN" | head -6
   echo "exit=$?"
 done
 for c in "$@"; do cp -f .tmp/evsave/$c.json evidence/ 2>/dev/null; done
